@@ -286,3 +286,27 @@ def apply_fn_summary(ev, f, args, kwargs=()):
         return sm.ret, sm.events
     return None
 
+
+
+def expand_class_calls(ev, t, depth=0):
+    """Rewrite calls of a repo classmethod/staticmethod through the class (Cls.make(a, b)) into the value its definition returns on these
+    arguments, so that a key/record built by a named constructor is seen through."""
+    import ast as _ast
+    if not isinstance(t, tuple) or depth > 3:
+        return t
+    if t and t[0] == "call" and t[1][0] == "name" and t[1][1].startswith("genjax."):
+        look = ev.p.lookup(t[1][1])
+        if look is not None and look[0] == "method":
+            decs = {(_d.id if isinstance(_d, _ast.Name) else getattr(_d, "attr", "")) for _d in look[1].decorator_list}
+            pre = None
+            if "classmethod" in decs:
+                pre = (("name", t[1][1].rsplit(".", 1)[0]),)
+            elif "staticmethod" in decs:
+                pre = ()
+            if pre is not None:
+                try:
+                    sm = ev.eval_funcnode(look[1], look[2], t[1][1], args=pre + tuple(t[2]), kwargs=tuple(t[3]))
+                    return expand_class_calls(ev, sm.ret, depth + 1)
+                except Exception:
+                    return t
+    return tuple(expand_class_calls(ev, x, depth) if isinstance(x, tuple) else x for x in t)
